@@ -10,12 +10,15 @@ from ..report import Report
 from .common import call, call_func, driver_interp, new_obj
 
 # (label, field value, expected value given strings {s1: '"one"', s2: '{two}'} )
-ONE, TWO = '"one"', "{two}"
+ONE, TWO, THREE = '"one"', "{two}", '"third string"'
 CASES = [
     ("bare-defined", "s1", ONE), ("bare-defined-2", "s2", TWO), ("bare-undefined", "zz", "zz"), ("braced", "{s1}", "{s1}"),
     ("quoted", '"s1"', '"s1"'), ("other-case", "S1", "S1"), ("concatenation", "s1 # s2", "s1 # s2"), ("concat-quoted", '"a" # s1', '"a" # s1'),
     ("quoted-and-defined-as-key", '"q"', '"q"'), ("braced-and-defined-as-key", "{b}", "{b}"),
     ("number", "12", "12"), ("int-value", 5, 5), ("empty", "", ""), ("spaced", " s1", " s1"), ("prefix", "s", "s"), ("value-of-string", ONE, ONE),
+    # macro names that are no Python identifiers
+    ("bare-defined-dashed", "acm-toplas", THREE), ("bare-defined-colon", "ieee:tc", THREE), ("bare-defined-dotted", "j.acm", THREE),
+    ("bare-defined-digit-first", "2nd", THREE),
 ]
 
 
@@ -44,7 +47,8 @@ def run(P: Program, rep: Report):
                 s2 = mk("String", key="s2", value=TWO, start_line=0, raw="r2")
                 s3 = mk("String", key='"q"', value="QQ", start_line=0, raw="r3")
                 s4 = mk("String", key="{b}", value="BB", start_line=0, raw="r4")
-                order = {"before": [s1, s2, s3, s4, e, e2, e3], "after": [e, e2, e3, s2, s1, s4, s3], "duplicated": [s1, e, s1b, s2, s3, s4, e2, e3], "none": [e, e2, e3]}[layout]
+                odd = [mk("String", key=k_, value=THREE, start_line=0, raw="r5") for k_ in ("acm-toplas", "ieee:tc", "j.acm", "2nd")]
+                order = {"before": [s1, s2, s3, s4] + odd + [e, e2, e3], "after": [e, e2, e3, s2, s1, s4, s3] + odd, "duplicated": [s1, e, s1b, s2, s3, s4, e2, e3] + odd, "none": [e, e2, e3]}[layout]
                 lib = new_obj(it, P, "library", "Library")
                 call(it, lib, "add", AList(order))
                 try:
@@ -93,8 +97,9 @@ def run(P: Program, rep: Report):
                 if isinstance(meta2, ADict) and meta2.items.get(mkey):
                     bad.setdefault("metadata-other-entry", "an entry without references gets a resolution record")
                 x3, x4 = ('"q"', "QQ"), ("{b}", "BB")
-                want_strs = {"before": [("s1", ONE), ("s2", TWO), x3, x4], "after": [("s2", TWO), ("s1", ONE), x4, x3],
-                             "duplicated": [("s1", ONE), ("s2", TWO), x3, x4], "none": []}[layout]
+                oddp = [(k_, THREE) for k_ in ("acm-toplas", "ieee:tc", "j.acm", "2nd")]
+                want_strs = {"before": [("s1", ONE), ("s2", TWO), x3, x4] + oddp, "after": [("s2", TWO), ("s1", ONE), x4, x3] + oddp,
+                             "duplicated": [("s1", ONE), ("s2", TWO), x3, x4] + oddp, "none": []}[layout]
                 if strs != want_strs or nblocks != nin:
                     bad.setdefault("strings-changed", f"@string blocks after resolution: {strs!r} ({nblocks} blocks), expected {want_strs!r} ({nin} blocks)")
     rep.count("resolution_runs", n)
@@ -122,24 +127,29 @@ def run(P: Program, rep: Report):
         rep.check(ok, "C11.R5", "default-parse-stack-order", ps.loc,
                   f"default parse stack is {names}: references must be resolved before enclosings are removed (else \"s1\" looks like a reference)")
 
-    bps = P.func("entrypoint", "_build_parse_stack")
+    from .c20 import Token, make_intrinsics, Hooks
+    psf = P.func("entrypoint", "parse_string")
 
     def three(ctx):
-        it = driver_interp(P, ctx, "entrypoint")
+        log = []
+        it = driver_interp(P, ctx, "entrypoint", make_intrinsics(P, log), Hooks(log))
         try:
             extra = it.construct(P.cls("middlewares.fieldkeys", "NormalizeFieldKeys"), [], {})
-            st = call_func(it, bps, None, AList([extra]))
-            return [x.cls.name for x in it.iterate(st) if isinstance(x, AObj)]
+            call_func(it, psf, Token("input-text", "str"), append_middleware=AList([extra]))
+            return [e[1] for e in log if e[0] == "transform"]
         except (Raised, Unsupported) as e:
             return str(e)
     for ctx, names in explore(three, 5):
         ok = isinstance(names, list) and names == ["ResolveStringReferencesMiddleware", "RemoveEnclosingMiddleware", "NormalizeFieldKeys"]
-        rep.check(ok, "C11.R5", "parse-stack-with-addition-order", bps.loc,
-                  f"parse stack with an appended middleware is {names}: resolution must still run first, the addition last")
+        rep.check(ok, "C11.R5", "parse-stack-with-addition-order", psf.loc,
+                  f"parse_string with an appended middleware applies {names}: resolution must still run first, the addition last")
 
     rep.rule("C11.R6", "reference lookup needs exact @string keys and verbatim field values from the splitter (splitter product, content class, see C02.R2)")
     from .. import splitter_facts as _sf
     _sf.report_product(rep, P, "C11.R6", ["content"], "parsed content", after_abort=False)
+
+    from . import common as _cm
+    _cm.default_stacks_are_fresh(P, rep, "C11.R5")
 
     rep.rule("C11.R9", "no unsafe memoisation in the modules this property rests on: a function decorated with lru_cache / cache / "
                       "cached_property neither takes nor returns a mutable object (else later calls see stale or shared results)")
